@@ -244,7 +244,7 @@ def holds(pc, goal):
     g = z3.simplify(goal)
     if z3.is_true(g):
         return "proved", 0.0
-    r = solve.check_vc(pc, goal, 5000, want_model=False, use_cvc5=False)
+    r = solve.check_vc(pc, goal, 20000, want_model=False, use_cvc5=False)
     return r.status, r.seconds
 
 
@@ -308,8 +308,25 @@ class Tally:
 CLAUSES = ("no-exception", "tables-in-document-order-none-lost-none-invented", "rows-and-cells-are-the-direct-ones", "cell-holds-its-own-text")
 
 
+def path_status(pc):
+    """'sat' | 'unsat' | 'unknown' for a path condition (a path whose condition is unsatisfiable does not exist; the
+    executor keeps a path when its cheap pruning query times out, so every recorded mismatch is re-checked here)"""
+    s = z3.Solver()
+    s.set("timeout", 20000)
+    s.add(*pc)
+    r = s.check()
+    return "sat" if r == z3.sat else ("unsat" if r == z3.unsat else "unknown")
+
+
 def compare(tally, st_pc, got, want, shape, feats):
     """got / want: list of tables (list of rows (list of z3 terms))."""
+    ps = path_status(st_pc) if st_pc else "sat"
+    if ps == "unsat":
+        return
+    if ps == "unknown":
+        for k in CLAUSES[1:]:
+            tally.record(k, "unknown", shape, feats, "path condition undecided (solver timeout)")
+        return
     ok_list = isinstance(got, list) and all(isinstance(t, list) and all(isinstance(r, list) for r in t) for t in got)
     if not ok_list:
         for k in CLAUSES[1:]:
@@ -336,8 +353,17 @@ def compare(tally, st_pc, got, want, shape, feats):
     tally.record(CLAUSES[3], cells_status, shape, feats, cdetail, secs)
 
 
+PART = (0, 1)      # (k, n): this job handles the shapes with index = k mod n (the pack splits long walkers over the pool)
+
+
+def my_part(shapes):
+    k, n = PART
+    return [s for i, s in enumerate(shapes) if i % n == k]
+
+
 def run_walker(prefix, loc, shapes, run_one):
     """run_one(doc) -> [(pc, got_tables, want_tables)] for normal outcomes, [(pc, exc)] raising outcomes"""
+    shapes = my_part(shapes)
     tally = Tally(prefix, CLAUSES)
     undecided = []
     for doc in shapes:
@@ -359,10 +385,7 @@ def run_walker(prefix, loc, shapes, run_one):
 
 
 def _feasible(pc):
-    s = z3.Solver()
-    s.set("timeout", 2000)
-    s.add(*pc)
-    return s.check() != z3.unsat
+    return path_status(pc) != "unsat"
 
 
 # ============================================================ ODF / OOXML trees ==
@@ -802,6 +825,7 @@ def cell_terms(kind, i, j, first_row_concrete=False):
 
 
 def run_sheets(prefix, loc, shapes, run_one):
+    shapes = my_part(shapes)
     tally = Tally(prefix, CLAUSES)
     for sh in shapes:
         feats = sheet_features(sh)
